@@ -6,6 +6,8 @@ import io
 import types
 
 from harness import ch_common as CM
+import os as _os
+
 from vlib import chsupport
 
 CU = CM.core_utils()
@@ -13,6 +15,9 @@ TAB, NL = chr(9), chr(10)
 HDR = ['label', 'f1', 'f2']
 FW = {'A': 'f1', 'B': 'f2'}
 
+
+# thorough tier: one more symbolic character per string (CH_EXTRA=1 is set by the runner)
+EXTRA = int(_os.environ.get('CH_EXTRA', '0'))
 
 def A(src):
     return types.SimpleNamespace(data_source=src)
@@ -37,7 +42,7 @@ def seq_eq(a, b) -> bool:
 
 def tsv_first_last(c0: str, c2: str) -> bool:
     """
-    pre: len(c0) <= 2 and len(c2) <= 2
+    pre: len(c0) <= 2 + EXTRA and len(c2) <= 2 + EXTRA
     pre: all(ch in 'a "' + chr(160) for ch in c0 + c2)
     post: _
     """
@@ -48,7 +53,7 @@ def tsv_first_last(c0: str, c2: str) -> bool:
 
 def tsv_middle(c1: str) -> bool:
     """
-    pre: len(c1) <= 4
+    pre: len(c1) <= 4 + EXTRA
     pre: all(ch in 'a "' + chr(160) for ch in c1)
     post: _
     """
@@ -59,7 +64,7 @@ def tsv_middle(c1: str) -> bool:
 
 def tsv_three_small(c0: str, c1: str, c2: str) -> bool:
     """
-    pre: len(c0) <= 1 and len(c1) <= 1 and len(c2) <= 1
+    pre: len(c0) <= 1 + EXTRA and len(c1) <= 1 + EXTRA and len(c2) <= 1 + EXTRA
     pre: all(ch in 'a ' for ch in c0 + c1 + c2)
     post: _
     """
@@ -70,7 +75,7 @@ def tsv_three_small(c0: str, c1: str, c2: str) -> bool:
 
 def tsv_wrong_count(c0: str, c1: str, extra: bool) -> bool:
     """
-    pre: len(c0) <= 1 and len(c1) <= 1
+    pre: len(c0) <= 1 + EXTRA and len(c1) <= 1 + EXTRA
     pre: all(ch in 'a ' for ch in c0 + c1)
     post: _
     """
@@ -82,7 +87,7 @@ def tsv_wrong_count(c0: str, c1: str, extra: bool) -> bool:
 
 def csv_roundtrip(c0: str, c1: str, kind: bool) -> bool:
     """
-    pre: len(c0) <= 2 and len(c1) <= 2
+    pre: len(c0) <= 2 + EXTRA and len(c1) <= 2 + EXTRA
     pre: all(ch in 'a," ' for ch in c0 + c1)
     post: _
     """
@@ -96,7 +101,7 @@ def csv_roundtrip(c0: str, c1: str, kind: bool) -> bool:
 
 def csv_wrong_count(c0: str, extra: bool) -> bool:
     """
-    pre: len(c0) <= 3
+    pre: len(c0) <= 3 + EXTRA
     pre: all(ch in 'a,"' for ch in c0)
     post: _
     """
@@ -110,7 +115,7 @@ def csv_wrong_count(c0: str, extra: bool) -> bool:
 
 def vw_two_tokens(t1: str, t2: str) -> bool:
     """
-    pre: 1 <= len(t1) <= 2 and 1 <= len(t2) <= 2
+    pre: 1 <= len(t1) <= 2 + EXTRA and 1 <= len(t2) <= 2 + EXTRA
     pre: all(ch in 'ab_-1' for ch in t1 + t2)
     post: _
     """
@@ -122,7 +127,7 @@ def vw_two_tokens(t1: str, t2: str) -> bool:
 
 def vw_absent_and_label(label: str, t: str, present: bool) -> bool:
     """
-    pre: 1 <= len(label) <= 2 and 1 <= len(t) <= 2
+    pre: 1 <= len(label) <= 2 + EXTRA and 1 <= len(t) <= 2 + EXTRA
     pre: all(ch in '-1a' for ch in label) and all(ch in 'a_1' for ch in t)
     post: _
     """
@@ -134,7 +139,7 @@ def vw_absent_and_label(label: str, t: str, present: bool) -> bool:
 
 def vw_empty_namespace(t: str, a_state: int, b_state: int) -> bool:
     """
-    pre: 1 <= len(t) <= 2
+    pre: 1 <= len(t) <= 2 + EXTRA
     pre: all(ch in 'ab_' for ch in t)
     pre: 0 <= a_state <= 2 and 0 <= b_state <= 2
     post: _
@@ -151,7 +156,7 @@ def vw_empty_namespace(t: str, a_state: int, b_state: int) -> bool:
 
 def vw_two_maps(t: str, first_swapped: bool) -> bool:
     """
-    pre: 1 <= len(t) <= 3
+    pre: 1 <= len(t) <= 3 + EXTRA
     pre: all(ch in 'ab_' for ch in t)
     post: _
     """
@@ -170,7 +175,7 @@ def vw_two_maps(t: str, first_swapped: bool) -> bool:
 
 def vw_namespace_order(t: str, swapped: bool) -> bool:
     """
-    pre: 1 <= len(t) <= 3
+    pre: 1 <= len(t) <= 3 + EXTRA
     pre: all(ch in 'ab_' for ch in t)
     post: _
     """
@@ -205,7 +210,7 @@ def _ns(lines):
 
 def namespace_feature(feat: str, typed: int) -> bool:
     """
-    pre: 1 <= len(feat) <= 3
+    pre: 1 <= len(feat) <= 3 + EXTRA
     pre: all(ch in 'fg2_' for ch in feat)
     pre: 0 <= typed <= 2
     post: _
@@ -220,7 +225,7 @@ def namespace_feature(feat: str, typed: int) -> bool:
 
 def namespace_id(fid: str, typed: bool) -> bool:
     """
-    pre: 1 <= len(fid) <= 3
+    pre: 1 <= len(fid) <= 3 + EXTRA
     pre: all(ch in 'AB1' for ch in fid)
     post: _
     """
@@ -233,7 +238,7 @@ def namespace_id(fid: str, typed: bool) -> bool:
 
 def tsv_first_last_twin(c0: str, c2: str) -> bool:
     """
-    pre: len(c0) <= 2 and len(c2) <= 2
+    pre: len(c0) <= 2 + EXTRA and len(c2) <= 2 + EXTRA
     pre: all(ch in 'a "' + chr(160) for ch in c0 + c2)
     post: not _
     """
@@ -242,7 +247,7 @@ def tsv_first_last_twin(c0: str, c2: str) -> bool:
 
 def tsv_middle_twin(c1: str) -> bool:
     """
-    pre: len(c1) <= 4
+    pre: len(c1) <= 4 + EXTRA
     pre: all(ch in 'a "' + chr(160) for ch in c1)
     post: not _
     """
@@ -251,7 +256,7 @@ def tsv_middle_twin(c1: str) -> bool:
 
 def tsv_three_small_twin(c0: str, c1: str, c2: str) -> bool:
     """
-    pre: len(c0) <= 1 and len(c1) <= 1 and len(c2) <= 1
+    pre: len(c0) <= 1 + EXTRA and len(c1) <= 1 + EXTRA and len(c2) <= 1 + EXTRA
     pre: all(ch in 'a ' for ch in c0 + c1 + c2)
     post: not _
     """
@@ -260,7 +265,7 @@ def tsv_three_small_twin(c0: str, c1: str, c2: str) -> bool:
 
 def tsv_wrong_count_twin(c0: str, c1: str, extra: bool) -> bool:
     """
-    pre: len(c0) <= 1 and len(c1) <= 1
+    pre: len(c0) <= 1 + EXTRA and len(c1) <= 1 + EXTRA
     pre: all(ch in 'a ' for ch in c0 + c1)
     post: not _
     """
@@ -269,7 +274,7 @@ def tsv_wrong_count_twin(c0: str, c1: str, extra: bool) -> bool:
 
 def csv_roundtrip_twin(c0: str, c1: str, kind: bool) -> bool:
     """
-    pre: len(c0) <= 2 and len(c1) <= 2
+    pre: len(c0) <= 2 + EXTRA and len(c1) <= 2 + EXTRA
     pre: all(ch in 'a," ' for ch in c0 + c1)
     post: not _
     """
@@ -278,7 +283,7 @@ def csv_roundtrip_twin(c0: str, c1: str, kind: bool) -> bool:
 
 def csv_wrong_count_twin(c0: str, extra: bool) -> bool:
     """
-    pre: len(c0) <= 3
+    pre: len(c0) <= 3 + EXTRA
     pre: all(ch in 'a,"' for ch in c0)
     post: not _
     """
@@ -287,7 +292,7 @@ def csv_wrong_count_twin(c0: str, extra: bool) -> bool:
 
 def vw_two_tokens_twin(t1: str, t2: str) -> bool:
     """
-    pre: 1 <= len(t1) <= 2 and 1 <= len(t2) <= 2
+    pre: 1 <= len(t1) <= 2 + EXTRA and 1 <= len(t2) <= 2 + EXTRA
     pre: all(ch in 'ab_-1' for ch in t1 + t2)
     post: not _
     """
@@ -296,7 +301,7 @@ def vw_two_tokens_twin(t1: str, t2: str) -> bool:
 
 def vw_absent_and_label_twin(label: str, t: str, present: bool) -> bool:
     """
-    pre: 1 <= len(label) <= 2 and 1 <= len(t) <= 2
+    pre: 1 <= len(label) <= 2 + EXTRA and 1 <= len(t) <= 2 + EXTRA
     pre: all(ch in '-1a' for ch in label) and all(ch in 'a_1' for ch in t)
     post: not _
     """
@@ -305,7 +310,7 @@ def vw_absent_and_label_twin(label: str, t: str, present: bool) -> bool:
 
 def vw_empty_namespace_twin(t: str, a_state: int, b_state: int) -> bool:
     """
-    pre: 1 <= len(t) <= 2
+    pre: 1 <= len(t) <= 2 + EXTRA
     pre: all(ch in 'ab_' for ch in t)
     pre: 0 <= a_state <= 2 and 0 <= b_state <= 2
     post: not _
@@ -315,7 +320,7 @@ def vw_empty_namespace_twin(t: str, a_state: int, b_state: int) -> bool:
 
 def vw_two_maps_twin(t: str, first_swapped: bool) -> bool:
     """
-    pre: 1 <= len(t) <= 3
+    pre: 1 <= len(t) <= 3 + EXTRA
     pre: all(ch in 'ab_' for ch in t)
     post: not _
     """
@@ -324,7 +329,7 @@ def vw_two_maps_twin(t: str, first_swapped: bool) -> bool:
 
 def vw_namespace_order_twin(t: str, swapped: bool) -> bool:
     """
-    pre: 1 <= len(t) <= 3
+    pre: 1 <= len(t) <= 3 + EXTRA
     pre: all(ch in 'ab_' for ch in t)
     post: not _
     """
@@ -333,7 +338,7 @@ def vw_namespace_order_twin(t: str, swapped: bool) -> bool:
 
 def namespace_feature_twin(feat: str, typed: int) -> bool:
     """
-    pre: 1 <= len(feat) <= 3
+    pre: 1 <= len(feat) <= 3 + EXTRA
     pre: all(ch in 'fg2_' for ch in feat)
     pre: 0 <= typed <= 2
     post: not _
@@ -343,7 +348,7 @@ def namespace_feature_twin(feat: str, typed: int) -> bool:
 
 def namespace_id_twin(fid: str, typed: bool) -> bool:
     """
-    pre: 1 <= len(fid) <= 3
+    pre: 1 <= len(fid) <= 3 + EXTRA
     pre: all(ch in 'AB1' for ch in fid)
     post: not _
     """
